@@ -175,10 +175,10 @@ type nwEvent struct {
 	Op    string     `json:"op"` // rt | multi
 	Small bool       `json:"small"`
 	Trees [][]nwNode `json:"trees"`
-	Texts [][]int    `json:"texts"`  // MarshalText of each tree
-	WSame bool       `json:"wsame"`  // Write produced the same bytes as MarshalText, no error
-	Seps  [][]int    `json:"seps"`   // separator after each tree
-	Back  [][]nwNode `json:"back"`   // what the real Reader returned for texts/seps concatenated
+	Texts [][]int    `json:"texts"` // MarshalText of each tree
+	WSame bool       `json:"wsame"` // Write produced the same bytes as MarshalText, no error
+	Seps  [][]int    `json:"seps"`  // separator after each tree
+	Back  [][]nwNode `json:"back"`  // what the real Reader returned for texts/seps concatenated
 	Err   bool       `json:"err"`
 	Panic bool       `json:"panic"`
 }
